@@ -13,24 +13,29 @@ import z3
 from harness.common import *
 
 
-def chain_src(d, vals=None, void=False, pad=0):
+def chain_src(d, vals=None, void=False, pad=0, ptr=False):
     """helpers h1..hd (value-returning, or void when `void`); h_i = slot A (callee: marker | h_{i-1}) + slot B (marker | h_{i-2} | leaf);
-    `pad` unrelated helpers are declared first, so the chain sits at function-arena indices >= pad (hundreds of functions)"""
+    `pad` unrelated helpers are declared first, so the chain sits at function-arena indices >= pad (hundreds of functions);
+    with `ptr` every function takes a `ptr<function, f32>` parameter that is threaded through all calls"""
+    P = 'acc: ptr<function, f32>' if ptr else ''
+    A = 'acc' if ptr else ''
     out = ['@group(0) @binding(0) var<storage, read_write> u: array<u32, 4>;'] if void else ['@group(0) @binding(0) var<uniform> u: vec4<f32>;']
     for k in range(pad):
         out.append(f'fn pad{k}() {{}}' if void else f'fn pad{k}() -> u32 {{ return {k}u; }}')
-    out.append('fn leaf() { u[0] = 1u; }' if void else 'fn leaf() -> u32 { return u32(u.x); }')
+    out.append(f'fn leaf({P}) {{ u[0] = 1u; }}' if void else f'fn leaf({P}) -> u32 {{ return u32(u.x); }}')
     for i in range(1, d + 1):
-        out.append(f'fn ma{i}() {{}}' if void else f'fn ma{i}() -> u32 {{ return 0u; }}')
-        out.append(f'fn mb{i}() {{}}' if void else f'fn mb{i}() -> u32 {{ return 0u; }}')
+        out.append(f'fn ma{i}({P}) {{}}' if void else f'fn ma{i}({P}) -> u32 {{ return 0u; }}')
+        out.append(f'fn mb{i}({P}) {{}}' if void else f'fn mb{i}({P}) -> u32 {{ return 0u; }}')
     for i in range(1, d + 1):
         a = (vals or {}).get(f'a{i}', f'ma{i}')
         b = (vals or {}).get(f'b{i}', f'mb{i}')
-        out.append(f'fn h{i}() {{ {a}(); {b}(); }}' if void else f'fn h{i}() -> u32 {{ let x = {a}(); let y = {b}(); return x + y; }}')
+        out.append(f'fn h{i}({P}) {{ {a}({A}); {b}({A}); }}' if void else f'fn h{i}({P}) -> u32 {{ let x = {a}({A}); let y = {b}({A}); return x + y; }}')
     top = (vals or {}).get('top', f'h{d}')
-    out.append(f'@compute @workgroup_size(1) fn main() {{ {top}(); }}' if void else f'@compute @workgroup_size(1) fn main() {{ let r = {top}(); }}')
+    decl = 'var acc0: f32 = 0.0; ' if ptr else ''
+    arg = '&acc0' if ptr else ''
+    out.append(f'@compute @workgroup_size(1) fn main() {{ {decl}{top}({arg}); }}' if void else f'@compute @workgroup_size(1) fn main() {{ {decl}let r = {top}({arg}); }}')
     # a second entry point of another stage shares the whole chain (work must not multiply across entry points either)
-    out.append(f'@fragment fn fmain() {{ {top}(); }}' if void else f'@fragment fn fmain() {{ let r = {top}(); }}')
+    out.append(f'@fragment fn fmain() {{ {decl}{top}({arg}); }}' if void else f'@fragment fn fmain() {{ {decl}let r = {top}({arg}); }}')
     return '\n'.join(out) + '\n'
 
 
@@ -64,7 +69,7 @@ def run(ctx):
     S, c = ctx.S, ctx.S.conv
     quick = ctx.tier == 'quick'
     d = 7 if quick else 9
-    ctx.bounds = {'call chain depth': d, 'unrelated functions declared before the chain': '0 and 70' if quick else '0, 70 and 300', 'struct nesting depth': d, 'shapes': 'per level: call of the previous level present/absent; on two (thorough: three) levels also a '
+    ctx.bounds = {'call chain depth': d, 'parameter type of the helpers (value family)': 'f32 or ptr<function, f32> (symbolic)', 'unrelated functions declared before the chain': '0 and 70' if quick else '0, 70 and 300', 'struct nesting depth': d, 'shapes': 'per level: call of the previous level present/absent; on two (thorough: three) levels also a '
                   'call of level i-2 or of a shared leaf; per struct level each of two members is scalar / previous struct / array of it (symbolic on 3 levels, both = struct elsewhere)'}
     ctx.assumptions += ['cost measure = interpreted invocations of the recursive walkers (deterministic; the native replay at depth 24 shows the wall-clock effect)',
                         'budget: call graph walk <= entries * (functions + call sites + 1); type walk <= variables * (types + member edges + 1): linear in the size of the shader']
@@ -73,13 +78,21 @@ def run(ctx):
     families = [(False, 0), (True, 0), (False, 70)] + ([] if quick else [(True, 70), (False, 300)])
     for void, pad in families:
         key_cg = 'C20/call-graph-' + ('void' if void else 'value') + (f'-after-{pad}-functions' if pad else '')
-        src = chain_src(d, void=void, pad=pad)
+        sym_params = (not void and pad == 0)        # in this family the TYPE of the helpers' parameter is symbolic: f32 or ptr<function, f32>
+        src = chain_src(d, void=void, pad=pad, ptr=sym_params)
         dmp = S.dump(src)
         mj = dmp['module']
         fh = {f['name']: i for i, f in enumerate(mj['functions'])}
         module = c.module(dmp)
         funcs = c.get(module, 'functions').fields[0].items
         assume, terms = [], {}
+        ptr_flag = z3.Bool('helpers_take_a_pointer')
+        if sym_params:
+            hptr = next(i for i, t in enumerate(mj['types']) if 'Pointer' in t['inner'])
+            hf32_ = next(i for i, t in enumerate(mj['types']) if t['inner'].get('Scalar') == {'kind': 'Float', 'width': 4})
+            for fj, fv in zip(mj['functions'], funcs):
+                for av in c.get(fv, 'arguments').items:
+                    c.set(av, 'ty', z3.If(ptr_flag, z3.BitVecVal(hptr, 32), z3.BitVecVal(hf32_, 32)))
         diamond_levels = [d, d - 2] if quick else [d, d - 2, d - 4]
         for i in range(1, d + 1):
             fn = funcs[fh[f'h{i}']]
@@ -120,7 +133,7 @@ def run(ctx):
             m = ctx.witness(pc)
             inv = {v: k for k, v in fh.items()}
             shape = {k: inv[model_value(m, t)] for k, t in terms.items()}
-            rep, det = replay_chain(ctx, shape, d, void, pad)
+            rep, det = replay_chain(ctx, shape, d, void, pad, bool(sym_params and model_value(m, ptr_flag)))
             ctx.report(key_cg, f'update_stages entered {">= " if kind == "cost" else ""}{n} times on a {n_funcs}-function / {n_sites}-call-site shader (linear budget {budget}); shape {shape}',
                        det, rep, det)
         ctx.extra['call_graph_' + ('void' if void else 'value') + (f'_pad{pad}' if pad else '')] = {'paths': len(res), 'worst_update_stages_invocations': worst[0], 'budget': budget, 'functions': n_funcs, 'call_sites': n_sites}
@@ -186,6 +199,7 @@ def run(ctx):
     # ------------------------------------------------------------------ native: the doubling shapes at depth 24 / 22 must be fast on the real build
     for name, (rep, det) in (('call-graph-value', replay_chain(ctx, None, d, False)), ('call-graph-void', replay_chain(ctx, None, d, True)),
                              ('call-graph-value-after-70-functions', replay_chain(ctx, None, d, False, 70)),
+                             ('call-graph-value-pointer-parameters', replay_chain(ctx, None, d, False, 0, True)),
                              ('type-graph', replay_structs(ctx, None, d))):
         ctx.sample({'native': name, **{k: v for k, v in det.items() if k != 'wgsl'}})
         if rep:
@@ -212,16 +226,16 @@ def timed_gen(ctx, src, opts, limit=20):
     return time.time() - t0, okv
 
 
-def replay_chain(ctx, shape, d, void=False, pad=0):
+def replay_chain(ctx, shape, d, void=False, pad=0, ptr=False):
     """the witness shape generalised to depth 24 (every level calls the previous one from both call sites)"""
     D = 24
     vals = {}
     for i in range(1, D + 1):
         vals[f'a{i}'] = f'h{i - 1}' if i > 1 else 'leaf'
         vals[f'b{i}'] = f'h{i - 1}' if i > 1 else 'leaf'
-    src = chain_src(D, vals, void, pad)
+    src = chain_src(D, vals, void, pad, ptr)
     secs, okv = timed_gen(ctx, src, {})
-    base, _ = timed_gen(ctx, chain_src(D, None, void, pad), {})
+    base, _ = timed_gen(ctx, chain_src(D, None, void, pad, ptr), {})
     det = {'wgsl': src, 'depth': D, 'lines': src.count('\n'), 'seconds': round(secs, 3), 'same_size_shader_without_calls_seconds': round(base, 3), 'generated': okv}
     return secs > max(1.0, 20 * base), det
 
